@@ -53,7 +53,9 @@ CLAIMED = {
               "columns with the reference row zero, Sum-coded component = contrast columns (1 own level, -1 omitted "
               "level, optional [mean] column), whole-term statement and closed form for terms of numeric, Treatment- "
               "and Sum-coded components: column j holds the product of what the pieces of its label denote "
-              "(C04_every_column_holds_what_its_label_says); levels sorted and duplicate-free." + COMMON),
+              "(C04_every_column_holds_what_its_label_says); the same for matrix-valued numeric components (bs, poly: "
+              "labels name[i], entries of the basis matrix) and offsets (C04_matrix.v); levels sorted and "
+              "duplicate-free. Listed finding KF-C04-1: a spline basis without any column keeps one label." + COMMON),
         design_ref="DESIGN.md section 5 C04, section 10",
         technique="Coq proof: labelled Kronecker product / indicator coding; differential correspondence; label-denotation oracle"),
     "C05": dict(
@@ -62,8 +64,12 @@ CLAIMED = {
               "aligned. Effect coding: every group-specific term is coded with one flag, reduced exactly when (1|same "
               "factor) is present (C05_effect_coding_rule); for the shapes (1|g), (x|g), (0 + f|g), (f|g) this is what "
               "the common-effects analysis prescribes (four agreement theorems); for several categorical effects "
-              "under one factor it is not (C05_refuted_uniform_flag = listed finding KF-C05-1); the rank oracle on "
-              "crossed data decides every other input." + COMMON),
+              "under one factor it is not (C05_refuted_uniform_flag = listed finding KF-C05-1). Rank and span: a "
+              "group-specific block is the common interaction term with the grouping factor first and in full coding "
+              "(C05_group_block_is_common_interaction), and on complete-factorial cells the columns of (1|g), "
+              "(0 + f|g) and (1|g) + (f|g) are linearly independent and span all g-by-f cell means (C05_rank.v, "
+              "MathComp, through the C03 tensor bridge); two effects in full coding are dependent "
+              "(C05_rank_refuted_two_full_effects). The rank oracle on crossed data decides every other input." + COMMON),
         design_ref="DESIGN.md section 5 C05, section 10",
         technique="Coq proof: one-hot Kronecker block structure; rank oracle on crossed designs; correspondence"),
     "C06": dict(
